@@ -353,6 +353,238 @@ fn run_scenario(rt: &Arc<tokio::runtime::Runtime>, id: &str, mode: HandlerTaskMo
     )
 }
 
+/// What the HTTP/2 client does while its streams' handlers wait.
+#[derive(Clone, Copy, Debug, PartialEq, Eq)]
+enum H2Variant {
+    /// nothing: all streams are answered
+    Stay,
+    /// RST_STREAM on the first `resets` streams (their response futures are
+    /// dropped); the connection and the other streams go on
+    Reset(usize),
+    /// the TCP connection is dropped under all streams
+    DropConn,
+}
+
+impl H2Variant {
+    fn name(&self) -> String {
+        match self {
+            H2Variant::Stay => "h2-stay".into(),
+            H2Variant::Reset(n) => format!("h2-reset{}", n),
+            H2Variant::DropConn => "h2-dropconn".into(),
+        }
+    }
+}
+
+async fn wait_for_async(ctx: &Ctx, e: &Ev, deadline: Duration) -> bool {
+    let t0 = std::time::Instant::now();
+    loop {
+        if ctx.has(e) {
+            return true;
+        }
+        if t0.elapsed() >= deadline {
+            return false;
+        }
+        tokio::time::sleep(Duration::from_millis(2)).await;
+    }
+}
+
+/// HTTP/2 (prior knowledge, plain port): `k` concurrent streams on one TCP
+/// connection, plus an HTTP/1.1 control with identical timing (connection 1
+/// does to its TCP connection what the h2 client does to its streams,
+/// connection 2 stays).  In the LTS every h2 stream is its own "connection"
+/// (the unit whose loss cancels the handler): a stream reset is `Disconnect`
+/// of that stream, a TCP drop is `Disconnect` of all its streams.
+fn run_h2_scenario(rt: &Arc<tokio::runtime::Runtime>, id: &str, mode: HandlerTaskMode, variant: H2Variant, k: usize) -> String {
+    use http_body_util::BodyExt;
+    use hyper_util::rt::{TokioExecutor, TokioIo};
+    let ctx = Ctx::new();
+    let server = start(rt, &ctx, mode);
+    let addr = server.local_addr();
+    let mut reqs: Vec<(u32, u32, String)> = Vec::new();
+    let mut resp: Vec<(u32, u16)> = Vec::new();
+    let mut late = 0usize;
+    let mut expired = false;
+    let cancel = mode == HandlerTaskMode::CancelOnDisconnect;
+    // which h2 streams lose their client
+    let lost = |i: usize| match variant {
+        H2Variant::Stay => false,
+        H2Variant::Reset(n) => i < n,
+        H2Variant::DropConn => true,
+    };
+    let h1_leaves = variant != H2Variant::Stay;
+    let kept: Vec<std::net::TcpStream> = rt.block_on(async {
+        let mut kept = Vec::new();
+        // --- HTTP/1.1 control connections 1 (same fate as the lost streams) and 2 (stays)
+        let mut h1: Vec<Option<std::net::TcpStream>> = Vec::new();
+        for c in [1u32, 2] {
+            let r = 2 * c;
+            let leaves = c == 1 && h1_leaves;
+            reqs.push((r, c, if leaves { "wait".into() } else { "stay".into() }));
+            match open(addr) {
+                Some(mut s) => {
+                    let _ = send_logged(&ctx, &mut s, &get(&format!("/w/{}", r)), Ev::ReqSent(c, r));
+                    h1.push(Some(s));
+                }
+                None => {
+                    late += 1;
+                    h1.push(None);
+                }
+            }
+        }
+        // --- HTTP/2 connection
+        let Ok(tcp) = tokio::net::TcpStream::connect(addr).await else {
+            late += 1;
+            return kept;
+        };
+        let Ok((mut sender, conn)) =
+            hyper::client::conn::http2::handshake::<_, _, http_body_util::Empty<bytes::Bytes>>(TokioExecutor::new(), TokioIo::new(tcp)).await
+        else {
+            late += 1;
+            return kept;
+        };
+        let conn_task = tokio::spawn(conn);
+        let mut futs = Vec::new();
+        for i in 0..k {
+            let c = 10 + i as u32;
+            let r = 2 * c;
+            reqs.push((r, c, if lost(i) { "wait".into() } else { "stay".into() }));
+            if sender.ready().await.is_err() {
+                late += 1;
+                futs.push(None);
+                continue;
+            }
+            let req = http::Request::builder()
+                .method("GET")
+                .uri(format!("http://localhost/w/{}", r))
+                .body(http_body_util::Empty::<bytes::Bytes>::new())
+                .unwrap();
+            ctx.log(Ev::ReqSent(c, r));
+            futs.push(Some(Box::pin(sender.send_request(req))));
+        }
+        // every handler is running
+        for (r, _, _) in reqs.clone() {
+            if !wait_for_async(&ctx, &Ev::Start(r), DEADLINE).await {
+                late += 1;
+            }
+        }
+        // --- the clients act, all at the same moment
+        if h1_leaves {
+            ctx.log(Ev::Disconnect(1));
+        }
+        for i in 0..k {
+            if lost(i) {
+                ctx.log(Ev::Disconnect(10 + i as u32));
+            }
+        }
+        if h1_leaves {
+            if let Some(s) = h1[0].take() {
+                if let Some(k) = disconnect(rt, s, How::Close) {
+                    kept.push(k);
+                }
+            }
+        }
+        match variant {
+            H2Variant::Stay => {}
+            H2Variant::Reset(n) => {
+                for f in futs.iter_mut().take(n) {
+                    *f = None; // dropping the response future resets the stream
+                }
+            }
+            H2Variant::DropConn => {
+                // kill the TCP connection first (no RST_STREAM frames), then forget the streams
+                conn_task.abort();
+                let _ = (&mut Box::pin(async {})).await;
+                for f in futs.iter_mut() {
+                    *f = None;
+                }
+            }
+        }
+        // --- cancel mode: the handlers of lost streams / of the h1 control are dropped, eventually
+        if cancel {
+            for (r, _, kind) in reqs.clone() {
+                if kind == "wait" && !wait_for_async(&ctx, &Ev::Drop(r), DEADLINE).await {
+                    expired = true;
+                }
+            }
+        }
+        // --- everybody who stayed is released and answered
+        for (r, _, kind) in reqs.clone() {
+            if kind == "stay" {
+                ctx.release(r);
+            }
+        }
+        for (i, f) in futs.iter_mut().enumerate() {
+            let r = 2 * (10 + i as u32);
+            if let Some(fut) = f.take() {
+                match tokio::time::timeout(DEADLINE, fut).await {
+                    Ok(Ok(rsp)) => {
+                        let st = rsp.status().as_u16();
+                        match tokio::time::timeout(DEADLINE, rsp.into_body().collect()).await {
+                            Ok(Ok(body)) => {
+                                resp.push((r, st));
+                                if st == 200 && body.to_bytes().as_ref() == b"ok" {
+                                    ctx.log(Ev::RespDelivered(r));
+                                }
+                            }
+                            _ => resp.push((r, 0)),
+                        }
+                    }
+                    _ => resp.push((r, 0)),
+                }
+            }
+        }
+        for (idx, c) in [(0usize, 1u32), (1, 2)] {
+            if let Some(s) = h1[idx].take() {
+                let r = 2 * c;
+                match read_one(&s) {
+                    Some(rsp) if rsp.well_formed => {
+                        resp.push((r, rsp.status));
+                        if rsp.status == 200 && rsp.body == b"ok" {
+                            ctx.log(Ev::RespDelivered(r));
+                        }
+                    }
+                    _ => resp.push((r, 0)),
+                }
+                kept.push(s);
+            }
+        }
+        drop(sender);
+        conn_task.abort();
+        kept
+    });
+    let healthy = health(addr);
+    drop(kept);
+    let closed = if cancel && !expired {
+        close_then_release(rt, server, &ctx, DEADLINE, Duration::from_secs(60))
+    } else {
+        ctx.release_all();
+        close_with_deadline(rt, server, Duration::from_secs(60))
+    };
+    ctx.release_all();
+    let log = ctx.snapshot();
+    reqs.sort();
+    resp.sort();
+    let reqs_s = reqs.iter().map(|(r, c, k)| format!("{}:{}:{}", r, c, k)).collect::<Vec<_>>().join(";");
+    let resp_s = if resp.is_empty() {
+        "-".to_string()
+    } else {
+        resp.iter().map(|(r, st)| format!("{}:{}", r, st)).collect::<Vec<_>>().join(";")
+    };
+    format!(
+        "lc {} {} n=1 plans={}-k{} reqs={} {} => health={} closed={} late={} resp={}",
+        id,
+        mode_name(mode),
+        variant.name(),
+        k,
+        reqs_s,
+        enc_log(&log),
+        healthy as u8,
+        matches!(closed, Some(Ok(()))) as u8,
+        late,
+        resp_s
+    )
+}
+
 fn random_plan(rng: &mut Rng, writers: &mut usize) -> Plan {
     let how = *rng.pick(&How::ALL);
     loop {
@@ -436,8 +668,42 @@ fn main() {
         add(&mut scenarios, "r", m, plans);
     }
 
-    let total = scenarios.len();
-    let scenarios = Arc::new(scenarios);
+    // 4. HTTP/2: k concurrent streams on one connection (each with an HTTP/1.1 control)
+    enum Job {
+        H1(String, HandlerTaskMode, Vec<Plan>),
+        H2(String, HandlerTaskMode, H2Variant, usize),
+    }
+    let mut jobs: Vec<Job> = Vec::new();
+    let mut hk = 0;
+    let n_h2_random = if is_thorough() { 200 } else { 16 };
+    for &m in &modes {
+        for v in [H2Variant::Stay, H2Variant::Reset(1), H2Variant::Reset(2), H2Variant::DropConn] {
+            for kk in [1usize, 4] {
+                if let H2Variant::Reset(n) = v {
+                    if n > kk {
+                        continue;
+                    }
+                }
+                hk += 1;
+                jobs.push(Job::H2(format!("h{}", hk), m, v, kk));
+            }
+        }
+    }
+    for i in 0..n_h2_random {
+        let kk = rng.range(2, 12) as usize;
+        let v = match rng.below(4) {
+            0 => H2Variant::Stay,
+            1 => H2Variant::DropConn,
+            _ => H2Variant::Reset(rng.range(1, kk as u64) as usize),
+        };
+        hk += 1;
+        jobs.push(Job::H2(format!("h{}", hk), modes[i % 2], v, kk));
+    }
+    for (id, m, p) in scenarios {
+        jobs.push(Job::H1(id, m, p));
+    }
+    let total = jobs.len();
+    let scenarios = Arc::new(jobs);
     let next = Arc::new(AtomicUsize::new(0));
     let results: Arc<Mutex<Vec<Option<String>>>> = Arc::new(Mutex::new(vec![None; total]));
     let workers = 12;
@@ -449,8 +715,10 @@ fn main() {
             if i >= scenarios.len() {
                 break;
             }
-            let (id, m, plans) = &scenarios[i];
-            let line = run_scenario(&rt, id, *m, plans);
+            let line = match &scenarios[i] {
+                Job::H1(id, m, plans) => run_scenario(&rt, id, *m, plans),
+                Job::H2(id, m, v, kk) => run_h2_scenario(&rt, id, *m, *v, *kk),
+            };
             results.lock().unwrap()[i] = Some(line);
         }));
     }
